@@ -2,7 +2,7 @@ import Mimium.Model.CoreCheckIO
 /-! `drv_c03`: the algorithmic type checker of the core language (`Model/CoreCheck`, `Model/CoreInfer`).
 Input line: `id \t times \t inputs \t sexpr` (`sexpr` = `(prog …)` or `(aprog (prog …) (binders …) (rets …))`; inputs as for `drv_prog`).
 Output line: `id \t <infer verdict> \t <annotated verdict> \t <run>` where a verdict is `accept <words> <type> su|nsu` or
-`reject <where>`; the annotated verdict uses the annotations of the text (all parameters / returns `num` when there are none);
+`reject <where>`; the infer verdict keeps the binder types the text states and guesses the rest; the annotated verdict uses the annotations of the text (all parameters / returns `num` when there are none);
 `<run>` is the reference evaluator's outcome class on an ACCEPTED program (`ok <nout>`, `fuel`, or the error — which
 `C03_check_run_output_width` excludes), `-` for a rejected one. -/
 open Mimium.Core
@@ -22,7 +22,7 @@ def line (l : String) : String :=
   | [id, times, inputs, sx] =>
     match parseAProg sx, times.toNat? with
     | some (P, ann), some n =>
-      let vi := verdictInfer P
+      let vi := verdictInfer P ((ann.map (·.binders)).getD [])
       let va := verdict (ann.getD ⟨[], []⟩) P
       let run := if vi.startsWith "accept" || va.startsWith "accept" then runClass P n (parseInputs inputs) else "-"
       s!"{id}\t{vi}\t{va}\t{run}"
